@@ -15,6 +15,6 @@ Init == i \in 1..Len(Progs) /\ done = FALSE
 Next == /\ ~done
         /\ done' = TRUE
         /\ i' = i
-        /\ PrintT(ToJson([id |-> Progs[i].id, exp |-> RunX(Progs[i].prog, Fuel, Ext(Progs[i]))]))
+        /\ PrintT(ToJson([id |-> Progs[i].id, exp |-> RunXI(Progs[i].prog, Fuel, Ext(Progs[i]), "extinner" \in DOMAIN Progs[i] /\ Progs[i].extinner)]))
 Spec == Init /\ [][Next]_vars
 =============================================================================
